@@ -269,6 +269,42 @@ func genWiring() {
 		add("tcpAuthFailureIsAbsorbed", ok1, where, "handleConnection: on authErr it calls h.absorbProbe and returns authErr (whatever the status: cipher, client replay, server replay)")
 		add("tcpAddAuthenticatedOnlyAfterAuth", ok2, where, "connMetrics.AddAuthenticated(id) is called once, after the authErr branch")
 	}
+	// ---- the listener manager hands out acquired listeners only wrapped, and keeps the shared listener private
+	{
+		okS, okP := false, false
+		where := ""
+		check := func(method, wrapper, field, ctor string) bool {
+			fd := svc.findFunc("listenerManager", method)
+			if fd == nil {
+				return false
+			}
+			where = pos(fd)
+			good, bad := 0, 0
+			ast.Inspect(fd.Body, func(n ast.Node) bool {
+				if _, isLit := n.(*ast.FuncLit); isLit {
+					return false
+				}
+				if rs, ok := n.(*ast.ReturnStmt); ok && len(rs.Results) == 2 {
+					r0 := nodeString(rs.Results[0])
+					if r0 == "nil" {
+						return true
+					}
+					if strings.HasPrefix(r0, "&"+wrapper) && strings.Contains(r0, field+":ln") && strings.Contains(r0, "managerMu:&m.mu") {
+						good++
+					} else {
+						bad++
+					}
+				}
+				return true
+			})
+			// the shared listener built here is only stored in the manager's map and Acquire'd
+			ctorCalls := len(callsOf(fd.Body, ctor))
+			return good == 1 && bad == 0 && ctorCalls == 1
+		}
+		okS = check("ListenStream", "managedStreamListener", "StreamListener", "NewMultiStreamListener")
+		okP = check("ListenPacket", "managedPacketConn", "PacketConn", "NewMultiPacketListener")
+		add("managerReturnsOnlyWrappedListeners", okS && okP, where, "ListenStream/ListenPacket return the acquired listener only inside managedStreamListener/managedPacketConn (whose Close takes m.mu first), and build the shared listener with the on-close closure in exactly one place")
+	}
 	l := newLean("Wiring.lean")
 	l.p("namespace OutlineModel.Gen.Wiring")
 	for _, f := range facts {
